@@ -91,6 +91,18 @@ Section Generic.
   Proof. exact (stationary_fixed_point_lemma F). Qed.
 End Generic.
 
+(* update() symmetrises its result, (P' + P'^T) * 0.5 (numerical hygiene for f32: see the header of
+   tools/props/c07.py).  In exact arithmetic this is the identity on symmetric matrices, so it is invisible in
+   all the theorems above; the result of update is symmetric whatever P' is. *)
+Theorem symmetrise_identity_on_symmetric : forall k (A : Rmat),
+    (forall i j, (i < k)%nat -> (j < k)%nat -> mgetR A i j = mgetR A j i) ->
+    forall i j, (i < k)%nat -> (j < k)%nat -> mgetR (msym Rops k A) i j = mgetR A i j.
+Proof. exact msym_id_on_symmetric. Qed.
+
+Theorem symmetrise_is_symmetric : forall k (A : Rmat) i j, (i < k)%nat -> (j < k)%nat ->
+    mgetR (msym Rops k A) i j = mgetR (msym Rops k A) j i.
+Proof. exact msym_symmetric. Qed.
+
 (* The scalar invariant behind cov_spd, for every noise value: predict keeps a block positive definite for ANY
    process noise (even zero); update keeps it exactly when the measurement noise is non-zero. *)
 Theorem scalar_predict_keeps_spd : forall sp sv c, spd c -> spd (sc_predict Rops sp sv c).
